@@ -12,10 +12,17 @@ def native_search(cmds, seed):
     """cmds: list of replay-crate argument lists ('{seed}' substituted). Returns (witness|None, info)."""
     exe = core.build_replay()
     info = []
+    marker = os.path.join(BUILD, 'search_marker.txt')
     for c in cmds:
-        args = [x.replace('{seed}', str(seed)) for x in c]
+        args = [x.replace('{seed}', str(seed)).replace('{marker}', marker) for x in c]
+        if os.path.exists(marker):
+            os.remove(marker)
         p = core.sh([exe] + args, timeout=3600)
         out = p.stdout
+        if p.returncode not in (0, 1) and os.path.exists(marker):
+            # the process died (e.g. stack overflow abort): the marker names the case that was running
+            case = open(marker).read().split()
+            return {'replay_args': case, 'expected': 'returns normally; observed: process terminated abnormally (rc=%d) %s' % (p.returncode, p.stderr[-200:].strip())}, info
         tried = re.search(r'SEARCH tried=(\d+)', out)
         info.append({'cmd': ' '.join(args), 'tried': int(tried.group(1)) if tried else None})
         m = re.search(r'^WITNESS (.*?) :: (.*)$', out, re.M)
@@ -60,6 +67,10 @@ def run(pid, tier, seed, cfg):
         detail = '\n'.join(e['detail'] for e in r.errors if e['function'] is None or any(f == e['function'] or f.endswith('::' + e['function']) for f in failed))[:6000]
         obligations = ['%s::%s' % (unit.upper(), f) for f in failed]
         kinds = sorted(set(e['kind'] for e in r.errors if e['function'] and any(f.endswith(e['function']) for f in failed)))
+        if w is None and cfg.get('kinds') and not any(re.search(cfg['kinds'], k) for k in kinds):
+            # the failed obligations are of a kind that belongs to a sibling property, and no failing input
+            # for THIS property was found
+            raise Undecided('obligation(s) %s failed with %s; attributed to a sibling property (no failing input for %s found)' % (obligations, kinds, pid))
         violations.append(Violation(pid, '+'.join(obligations) + ('[' + ';'.join(kinds)[:120] + ']' if kinds else ''), detail, w,
                                     key='+'.join(obligations), replay_kind='args'))
     n_obl = len(fns)
